@@ -60,6 +60,38 @@ class EngineScenario:
         loop.lateness = lambda: (rng.choice(choices) if rng.random() < p else 0.0)
         loop.on_late = lambda when, late: self.ev.append({"k": "stall", "d": ms(late), "t": ms(when + late), "_n": next(_vl.SEQ)})
 
+    @classmethod
+    def early(cls, rng, rank="stable"):
+        """a scenario that observes the connection from the creation of its endpoint (queue tap attached
+        before the first handshake datagram); the caller drives time with `self.s.advance`"""
+        self = cls.__new__(cls)
+        self.rng = rng
+        self.s = AsyncSession(rank=rank, rank_seed=rng.random(), autostart=False)
+        self.tap = None
+        self.tr = None
+        self.n0 = 0
+        self.ev = []
+        self.ncall = 0
+        self.tasks = []
+        self.fault = None
+        loop = self.s.loop
+
+        def on_endpoint(tr, proto):
+            if not tr.kw.get("allow_broadcast") and self.tap is None:
+                self.tr = tr
+                self.tap = QueueTap(proto, loop)
+        loop.on_endpoint = on_endpoint
+        self.s.enter()
+        return self
+
+    @property
+    def spa(self):
+        return self.__dict__.get("_spa") or self.s.man._spa
+
+    @spa.setter
+    def spa(self, v):
+        self.__dict__["_spa"] = v
+
     def close(self):
         self.s.close()
 
